@@ -1218,9 +1218,19 @@ class Engine:
         return self.new_list(path, [], e, elem="char")
 
     def bi_print(self, path, e):
-        return SNone()
+        return self._message_call(path, e)
 
     def bi_warn(self, path, e):
+        return self._message_call(path, e)
+
+    def _message_call(self, path, e):
+        """print / warn: dropped by the extraction, unless the contract asks for the safety obligations of building the message (indexing, keys)"""
+        if getattr(self.c, "check_message_args", False):
+            for a in e.args:
+                try:
+                    self.ev(path, a)
+                except EngineError:
+                    pass          # the text itself is outside the subset; obligations emitted while evaluating its parts stay
         return SNone()
 
     def bi_bool(self, path, e):
